@@ -1221,6 +1221,11 @@ void rfbNewFramebuffer(rfbScreenInfoPtr screen, char *framebuffer,
 
   /* Re-enable cursor drawing into framebuffer */
   UNLOCK(screen->cursorMutex);
+
+  /* A client that connected while we were at it is not among the clients locked and
+     refreshed above, and its first update may have been taken from the old framebuffer:
+     have every client look at the whole (new) screen. */
+  rfbMarkRectAsModified(screen, 0, 0, width, height);
 }
 
 /* hang up on all clients and free all reserved memory */
